@@ -115,7 +115,7 @@ def run_property(prop: str, tier: str, seed: int, jobs: int, only: Optional[str]
         print(f"no obligations registered for {prop} at tier {tier}")
         return EXIT_INCONCLUSIVE
     known = [k for k in load_known() if k["property"] == prop and k.get("status") == "known"]
-    scale = float(os.environ.get("VF_TIMEOUT_SCALE", "1"))
+    scale = float(os.environ.get("VF_TIMEOUT_SCALE", "2"))  # registered time-outs are measured x ~1.5-3 on an idle machine; the factor absorbs a loaded or slower host
     results = {o.key: Result(o) for o in obs}
 
     # schedule: heaviest first; main and twin of every obligation are separate jobs
